@@ -298,6 +298,9 @@ class Ctx:
         self.iter_hook = None   # called (loop node, env, value) per iteration
         self.loop_hook = None   # called (loop node, "enter"|"exit")
         self.order_hook = None  # (loop node, count) -> iteration order
+        self.ext = None         # {node class name: generator fn(node, env,
+        #                          ctx)} for statements owned by another
+        #                          simulator (OpenACC device store, ...)
 
     def tick(self):
         self.steps += 1
@@ -412,6 +415,9 @@ def exec_stmt(node, env, ctx):
         return
     if tname == "OMPBarrierDirective":
         yield from ctx.omp.barrier(env)
+        return
+    if ctx.ext is not None and tname in ctx.ext:
+        yield from ctx.ext[tname](node, env, ctx)
         return
     raise Unsupported("statement node " + tname)
 
